@@ -205,3 +205,83 @@ func trimPkg(s string) string {
 	}
 	return s
 }
+
+// writeOnceLocal: al is a local struct variable that is assigned as a whole exactly once (hdr, err := parse(...)), never
+// modified through its fields, and whose address does not escape: every load of one of its fields yields the same value.
+func writeOnceLocal(al *ssa.Alloc) bool {
+	if al == nil || al.Heap {
+		return false
+	}
+	if _, ok := al.Type().Underlying().(*types.Pointer).Elem().Underlying().(*types.Struct); !ok {
+		return false
+	}
+	whole := 0
+	for _, ref := range *al.Referrers() {
+		switch x := ref.(type) {
+		case *ssa.Store:
+			if x.Addr != ssa.Value(al) {
+				return false // the address is stored somewhere
+			}
+			whole++
+		case *ssa.FieldAddr:
+			for _, r2 := range *x.Referrers() {
+				switch y := r2.(type) {
+				case *ssa.UnOp:
+					if y.Op != token.MUL {
+						return false
+					}
+				case *ssa.DebugRef:
+				default:
+					return false
+				}
+			}
+		case *ssa.UnOp, *ssa.DebugRef:
+		default:
+			return false
+		}
+	}
+	return whole == 1
+}
+
+// localFieldOf: v is (a conversion of) a load of field k of a write-once local struct -> (alloc, k).
+func localFieldOf(v ssa.Value) (*ssa.Alloc, int, bool) {
+	u, ok := stripConv(v).(*ssa.UnOp)
+	if !ok || u.Op != token.MUL {
+		return nil, 0, false
+	}
+	fa, ok := u.X.(*ssa.FieldAddr)
+	if !ok {
+		return nil, 0, false
+	}
+	al, ok := fa.X.(*ssa.Alloc)
+	if !ok || !writeOnceLocal(al) {
+		return nil, 0, false
+	}
+	return al, fa.Field, true
+}
+
+// sameLocalFieldLoad: a and b read the same field of the same write-once local struct.
+func sameLocalFieldLoad(a, b ssa.Value) bool {
+	a1, k1, ok1 := localFieldOf(a)
+	a2, k2, ok2 := localFieldOf(b)
+	return ok1 && ok2 && a1 == a2 && k1 == k2
+}
+
+// localFieldLoadPeers: all loads of the field that v loads, when v loads a field of a write-once local struct.
+func localFieldLoadPeers(v ssa.Value) []ssa.Value {
+	al, k, ok := localFieldOf(v)
+	if !ok {
+		return nil
+	}
+	var out []ssa.Value
+	for _, ref := range *al.Referrers() {
+		if fa, ok := ref.(*ssa.FieldAddr); ok && fa.Field == k {
+			for _, r2 := range *fa.Referrers() {
+				if u, ok := r2.(*ssa.UnOp); ok && u.Op == token.MUL {
+					out = append(out, u)
+				}
+			}
+		}
+	}
+	return out
+}
